@@ -41,6 +41,10 @@ the executor's skip decision (`P/Skip.lean`, tied by `harness/skipcorr.py`):
   exactly the declared names (`addEnvDeps_from_empty`, `addEnvDeps_complete`), the full recycle
   keeps rows whose names `can_recycle` has compared with the declaration.
 
+* the two later fixes: a full recycle with a changed shell flag or changed overrides re-checks the
+  step (`recycle_rechecks_changed_shell_or_overrides`, 2c5d2b4), and a step recorded SUCCEEDED
+  carries the current values of its tracked variables (`success_records_current_env`, bd1d0f5).
+
 Not proved (oracle only): `closed_unique`, `successful_build_closed` (DESIGN T1/T2), the
 propagation of `update_file_hashes` batches of several files (one file per request is proved;
 the watcher and the rescan issue one request per file), and
@@ -735,6 +739,48 @@ theorem redefinition_declares_env : RedefinitionDeclaresEnv := by
           simp only [hng] at h
           exact hcreate _ h rfl
 
+
+/-- **Fix 2c5d2b4**: a full recycle with a changed shell flag or changed environment overrides
+(both are ingredients of the step hash) does not keep the step SUCCEEDED: `Step.after_recycle`
+marks it pending, so it is checked against its stored hash, which differs, and reruns (finding
+`redefinition-not-noticed`). -/
+theorem recycle_rechecks_changed_shell_or_overrides (s s' : KState) (sk : Key) (d : StepDecl) (n : Node)
+    (hch : n.shell ≠ d.shell ∨ n.overrides ≠ d.overrides) (h : s.afterRecycle sk d n = .ok s') :
+    ∀ st, s'.sstateOf sk = some st → st = .pending ∨ st = .running ∨ st = .checking := by
+  unfold KState.afterRecycle at h
+  rw [if_pos (Or.inr hch)] at h
+  exact markStepPending_notDone _ _ s' sk h
+
+/-- **Fix bd1d0f5**: a step that is recorded SUCCEEDED has the current value of every tracked
+environment variable recorded with it, so the next `rescan_env_vars` under the same environment
+does not mark it (finding `env-value-reverted-not-noticed`: before, the value recorded at
+declaration time was compared, and a variable changed 1 -> 2 -> 1 went unnoticed). -/
+theorem success_records_current_env (s s' : KState) (cfg : KConfig) (step : Key) (hash : Nat)
+    (h : s.completeSuccess cfg step hash = .ok s') :
+    ∀ n, s'.find? step = some n → ∀ e ∈ n.envs, envValue cfg e.1 = e.2.1 := by
+  unfold KState.completeSuccess at h
+  simp only [bind, Except.bind] at h
+  cases h1 : s.setStepState step .succeeded with
+  | error e => simp [h1] at h
+  | ok s1 =>
+    simp only [h1] at h
+    cases h2 : s1.rebuildOutdatedProducts step with
+    | error e => simp [h2] at h
+    | ok s2 =>
+      simp only [h2, pure, Except.pure, Except.ok.injEq] at h
+      subst h
+      intro n hn e he
+      unfold KState.refreshEnvValues at hn
+      rw [find?_modify_self] at hn
+      · cases hf : (s2.setHash step hash).find? step with
+        | none => simp [hf] at hn
+        | some m =>
+          simp only [hf, Option.map_some, Option.some.injEq] at hn
+          subst hn
+          simp only [List.mem_map] at he
+          obtain ⟨e0, _, rfl⟩ := he
+          rfl
+      · intro m hm; exact hm
 
 /-! Non-vacuity -/
 example : trySkip (⟨1, 2⟩ : Digests Nat) (some 1) (some 2) = .skipped ⟨1, 2⟩ := by decide
